@@ -100,6 +100,10 @@ type c03In struct {
 	SStream  bool     `json:"sstream"`  // serverMaxBodySize -1
 	SrvHost  string   `json:"srvHost"`  // 127.0.0.1 | localhost
 	KeepHost bool     `json:"keepHost"` //
+	LB       string   `json:"lb"`       // loadBalance.policy ("" = not configured)
+	LBKey    string   `json:"lbKey"`    // loadBalance.headerHashKey
+	Weight   int      `json:"weight"`   // weight of every server (0 = none)
+	Twice    bool     `json:"twice"`    // the pool lists the (same) server twice
 	MinLen   int      `json:"minLen"`   // proxy compression minLength, -1 = no compression
 	RA       c03Adapt `json:"ra"`       // RequestAdaptor
 	RS       c03Adapt `json:"rs"`       // ResponseAdaptor
@@ -140,20 +144,8 @@ type c03Obs struct {
 // ---------------------------------------------------------------------------
 // oracles (real library functions)
 
-// c03Gzip is the gzip oracle: compress/gzip in one shot (default level, empty
-// header), deliberately NOT easegress' own readers.GZipCompressReader, whose
-// output must be byte-identical to it.
-func c03Gzip(b []byte) []byte {
-	var w bytes.Buffer
-	zw := gzip.NewWriter(&w)
-	if _, err := zw.Write(b); err != nil {
-		panic(err)
-	}
-	if err := zw.Close(); err != nil {
-		panic(err)
-	}
-	return w.Bytes()
-}
+// c03Gzip is the gzip oracle (compress/gzip in one shot, see c07Gzip).
+func c03Gzip(b []byte) []byte { return c07Gzip(b) }
 
 func c03GunzipOf(b []byte) ([]byte, bool) {
 	zr, err := gzip.NewReader(bytes.NewReader(b))
@@ -347,7 +339,20 @@ func c03PipelineYAMLExt(in *c03In, addr string, mc *c03Cache, ed *c03Edit) strin
 		fmt.Fprintf(&w, "memoryCache:\n      expiration: 1h\n      maxEntryBytes: %d\n      codes: %s\n      methods: %s\n    ",
 			mc.Max, strings.ReplaceAll(fmt.Sprint(mc.Codes), " ", ", "), "["+strings.Join(mc.Methods, ", ")+"]")
 	}
-	fmt.Fprintf(&w, "servers:\n    - url: http://%s:%s\n      keepHost: %v\n", in.SrvHost, port, in.KeepHost)
+	if in.LB != "" {
+		fmt.Fprintf(&w, "loadBalance:\n      policy: %s\n", in.LB)
+		if in.LBKey != "" {
+			fmt.Fprintf(&w, "      headerHashKey: %s\n", in.LBKey)
+		}
+		w.WriteString("    ")
+	}
+	w.WriteString("servers:\n")
+	for k := 0; k < 1 || (in.Twice && k < 2); k++ {
+		fmt.Fprintf(&w, "    - url: http://%s:%s\n      keepHost: %v\n", in.SrvHost, port, in.KeepHost)
+		if in.Weight > 0 {
+			fmt.Fprintf(&w, "      weight: %d\n", in.Weight)
+		}
+	}
 	adapt("ResponseAdaptor", "respadaptor", in.RS)
 	return w.String()
 }
@@ -616,8 +621,17 @@ func c03Gen(r *vfRand, adv bool) (in c03In) {
 	}
 	in.CStream = r.Chance(1, 4)
 	in.SStream = r.Chance(1, 4)
-	in.SrvHost = r.PickStr("127.0.0.1", "127.0.0.1", "localhost")
+	in.SrvHost = r.PickStr("127.0.0.1", "localhost", "localhost")
 	in.KeepHost = r.Chance(1, 3)
+	// the Host rule under every load-balance policy
+	in.LB = r.PickStr("", "roundRobin", "random", "weightedRandom", "weightedRandom", "ipHash", "headerHash")
+	if in.LB == "headerHash" {
+		in.LBKey = r.PickStr("X-Trace", "X-Absent", "User-Agent")
+	}
+	if r.Chance(1, 3) {
+		in.Weight = r.PickInt(1, 5, 100)
+	}
+	in.Twice = r.Chance(1, 3)
 	in.MinLen = -1
 	if r.Chance(1, 2) || adv {
 		in.MinLen = r.PickInt(0, 1, 20, 100, 1000)
